@@ -25,6 +25,7 @@ def run(chk):
     d6_sampling(chk, repo)
     d7_line(chk, repo)
     d8_source_field(chk, repo)
+    d9_dtype_and_line(chk, repo)
     chk.trust("xarray DataArray.sel(..., method='nearest') picks, per dimension, the coordinate nearest to each requested value")
     chk.trust("np.full broadcasts the fill value over the requested shape; np.argwhere lists index rows")
     chk.assume("equality of the stored numbers with the specification for arbitrary inputs is not decided (dtype casting, the "
@@ -327,3 +328,108 @@ def d8_source_field(chk, repo):
         chk.ob(f"{ov['Field'].qual}::return#{i}::nearest-lookup", v.eq(t, want_r), "C02.D8",
                f"returns {v.show(t)[:200]}; expected the source's xarray selected at mesh.cells.<dim> for every dim with "
                "method='nearest'", v.f, r)
+
+
+def d9_dtype_and_line(chk, repo):
+    from ..lib import simple_assigns, find_assign
+    chk.rule("C02.D9", "dtype and line details: every allocation in _as_array uses the requested dtype (falling back to at least "
+                       "float64 only when none is given); the setters forward self.dtype; the source-field overload reshapes only "
+                       "for scalar targets; the default loop looks at component 0 of the sentinel; Line pairs point i with value i, "
+                       "column i with coordinate i")
+    ov = cm.as_array_overloads(repo)
+    v = FV(repo, ov["Complex|Iterable"].qual, param_types={"mesh": MESH})
+    fb = find_assign(v, lambda t_, s_: isinstance(s_.value, ast.BoolOp))
+    ok = False
+    if fb:
+        st = fb[0]
+        ok = isinstance(st.value.op, ast.Or) and isinstance(st.value.values[0], ast.Name) and st.value.values[0].id == "dtype" and \
+            v.eq(v.term(st.value.values[1], at=st), v.spec("max(np.asarray(val).dtype, np.float64)"))
+    chk.ob(f"{ov['Complex|Iterable'].qual}::default-dtype", ok, "C02.D9",
+           "without a requested dtype the array is at least float64: dtype = dtype or max(asarray(val).dtype, float64)", v.f,
+           fb[0] if fb else None)
+    for key, alloc in (("Complex|Iterable", ("np.full", "np.array")), ("Callable", ("np.empty",)), ("dict", ("np.full",))):
+        w = FV(repo, ov[key].qual, param_types={"mesh": MESH})
+        n_ = 0
+        for call, st in w.calls():
+            fn = ast.unparse(call.func)
+            if fn in alloc:
+                n_ += 1
+                kw = {k.arg: k.value for k in call.keywords if k.arg}
+                okk = "dtype" in kw and isinstance(kw["dtype"], ast.Name) and kw["dtype"].id == "dtype"
+                chk.ob(f"{ov[key].qual}::{fn}#{n_}::uses-requested-dtype", okk, "C02.D9",
+                       f"`{w.src(call)[:80]}` must allocate with dtype=dtype", w.f, call)
+        chk.require(n_ >= 1, f"{ov[key].qual}: no allocation found")
+    d = FV(repo, ov["dict"].qual, param_types={"mesh": MESH})
+    fd = find_assign(d, lambda t_, s_: isinstance(s_.value, ast.BoolOp) and isinstance(s_.targets[0], ast.Name) and s_.targets[0].id == "dtype")
+    chk.ob(f"{ov['dict'].qual}::default-dtype", fd is not None and isinstance(fd[0].value.op, ast.Or) and
+           ast.unparse(fd[0].value.values[0]) == "dtype" and d.eq(d.term(fd[0].value.values[1], at=fd[0]), d.spec("np.float64")),
+           "C02.D9", "dictionary values default to float64 when no dtype is requested", d.f)
+    loops = [s for s in d.stmts() if isinstance(s, ast.For)]
+    it = d.term(loops[-1].iter, at=loops[-1])
+    c = decode_call(d.ctx, it)
+    ok = False
+    if c and c[0] == "np.argwhere":
+        inner = decode_call(d.ctx, c[1][0])
+        if inner and inner[0] == "np.isnan":
+            h = d.ctx.head_of(inner[1][0])
+            ok = bool(h and h[0] == "sub" and d.eq(d.ctx.args_of(inner[1][0])[1], d.spec("(..., 0)")))
+    chk.ob(f"{ov['dict'].qual}::sentinel-cells", ok, "C02.D9",
+           "the cells still to be filled are np.argwhere(np.isnan(array[..., 0])) (index rows of the spatial axes)", d.f, loops[-1])
+    f = FV(repo, ov["Field"].qual, param_types={"mesh": MESH})
+    conds = [s for s in f.body if isinstance(s, ast.If) and s.body and isinstance(s.body[-1], ast.Return)]
+    ok = any(f.eq(f.ev.term(s.test, at=s), f.spec("nvdim == 1")) and
+             (decode_call(f.ctx, f.ev.term(s.body[-1].value, at=s.body[-1])) or ("",))[0] == ".reshape" and
+             f.eq(decode_call(f.ctx, f.ev.term(s.body[-1].value, at=s.body[-1]))[1][2], f.ctx.const(-1)) for s in conds)
+    chk.ob(f"{ov['Field'].qual}::scalar-reshape", ok, "C02.D9",
+           "only for nvdim == 1 the looked-up values are reshaped to (*mesh.n, -1)", f.f)
+    a = FV(repo, "field.Field.array.setter")
+    st = [s for s in a.self_stores() if s[1] == "_array"][0]
+    c = decode_call(a.ctx, a.term(st[2], at=st[0]))
+    chk.ob("field.Field.array.setter::forwards-dtype", bool(c and "dtype" in c[2] and a.eq(c[2]["dtype"], a.spec("self.dtype"))),
+           "C02.D9", "the array setter must convert with dtype=self.dtype", a.f, st[0])
+    g = FV(repo, "field.Field.__getattr__")
+    for r, x in cm.returned_news(g):
+        ok = g.eq(x.get("unit"), g.spec("self.unit"))
+        vm = x.get("vdim_mapping")
+        mem = phi_members(g.ctx, vm) if vm is not None else []
+        okm = any(g.eq(m, g.spec("{attr: self.vdim_mapping[attr]}")) for m in mem) and \
+            any((g.ctx.head_of(m) or ("",))[0] == "dict" and not g.ctx.args_of(m) for m in mem)
+        chk.ob("field.Field.__getattr__::component-metadata", ok and okm, "C02.D9",
+               "a component keeps the field's unit and its own entry of the axis mapping ({} when it has none)", g.f, r)
+    # Field.line value columns
+    l = FV(repo, "field.Field.line")
+    sites = [s for s in l.ctor_sites() if s.cls == "line.Line"]
+    okv = False
+    if sites:
+        okv = l.eq(sites[0].args.get("value_columns"), l.spec("[f'v{dim}' for dim in self.vdims] if self.vdims is not None else 'v'"))
+    chk.ob("field.Field.line::value-columns", okv, "C02.D9", "value columns are v<label> per component, 'v' for unlabelled fields", l.f)
+    # Line.__init__
+    L = FV(repo, "line.Line.__init__")
+    okg, det = L.guard("len(points) != len(values)", exc=("ValueError",))
+    chk.ob("line.Line.__init__::same-number-of-points-and-values", okg, "C02.D9", det, L.f)
+    pts = find_assign(L, lambda t_, s_: isinstance(s_.targets[0], ast.Name) and s_.targets[0].id == "points")
+    vals = find_assign(L, lambda t_, s_: (decode_call(L.ctx, t_) or ("",))[0] == ".reshape")
+    okr = vals is not None and L.eq(vals[2], L.spec("np.array(values).reshape((np.array(points).shape[0], -1))"))
+    chk.ob("line.Line.__init__::one-row-per-point", okr, "C02.D9",
+           "values must be reshaped to (number of points, -1): row i belongs to point i", L.f, vals[0] if vals else None)
+    loops = [s for s in L.stmts() if isinstance(s, ast.For)]
+    okp = okc = False
+    for lp in loops:
+        it = L.term(lp.iter, at=lp)
+        sts = [s for s in lp.body if isinstance(s, ast.Assign) and isinstance(s.targets[0], ast.Subscript)]
+        if len(sts) != 1:
+            continue
+        idx = L.ev._index(sts[0].targets[0].slice, L.cfg.node(sts[0]), None)
+        val = L.term(sts[0].value, at=sts[0])
+        if L.eq(it, L.spec("enumerate(point_columns)")):
+            i_ = L.ctx.mk(("index",), (L.spec("point_columns"),))
+            c_ = L.ctx.mk(("iter", ()), (L.spec("point_columns"),))
+            okp = L.eq(idx, c_) and L.eq(val, L.spec("np.array(points)[..., i]", env={"i": i_}))
+        elif (decode_call(L.ctx, it) or ("",))[0] == "zip" and vals is not None:
+            zc = decode_call(L.ctx, it)
+            i_ = L.ctx.mk(("iter", ()), (zc[1][0],))
+            c_ = L.ctx.mk(("iter", ()), (zc[1][1],))
+            okc = L.eq(zc[1][0], L.spec("range(V.shape[-1])", env={"V": vals[2]})) and L.eq(zc[1][1], L.spec("value_columns")) and \
+                L.eq(idx, c_) and L.eq(val, L.spec("V[..., i]", env={"V": vals[2], "i": i_}))
+    chk.ob("line.Line.__init__::point-columns", okp, "C02.D9", "column k of the points goes under point_columns[k]", L.f)
+    chk.ob("line.Line.__init__::value-columns", okc, "C02.D9", "column k of the values goes under value_columns[k]", L.f)
